@@ -29,8 +29,10 @@ TRUSTED = ["Nsl/Model/WF.lean: definition of WF (the formal reading of the state
 N_GEN = {"quick": 600, "thorough": 24000}
 
 
-def check_source(src, d, tags=(False, True)):
-    """-> list of (optimize, status, detail) for one source text"""
+def check_source(src, d, tags=(False, True), stored=False):
+    """-> list of (optimize, status, detail) for one source text; stored: the module is written with pickle and read back first
+    (what a program that imports the module is linked from)"""
+    import pickle
     out = []
     for opt in tags:
         c = implrun.compile_src(src, optimize=opt)
@@ -38,6 +40,12 @@ def check_source(src, d, tags=(False, True)):
             out.append((opt, "reject", "%s in %s" % (c[1][0], c[1][1])))
             continue
         m = c[1].IRModule
+        if stored:
+            try:
+                m = pickle.loads(pickle.dumps(m))
+            except BaseException as e:
+                out.append((opt, "undumpable", "store/load fails: %s: %s" % (type(e).__name__, str(e)[:120])))
+                continue
         try:
             ps = implrun.program_sexp(m.Functions, m.Globals)
         except BaseException as e:
@@ -60,7 +68,7 @@ def err_class(report):
 def judge_source(run, src, results, origin, extra=None):
     for r in results:
         opt = r[0]
-        key = (src, opt)
+        key = (src, opt) if not (extra or {}).get("stored") else (src, opt, "stored")
         if r[1] == "reject":
             run.count("%s:rejected:opt%d" % (origin, opt))
             continue
@@ -102,6 +110,10 @@ def explore(run, scale=1):
     # 1 corpus + repository tests (source only)
     for name, src in wholelang.PROGRAMS:
         judge_source(run, src, check_source(src, d), "corpus", dict(name=name))
+    for name, src in wholelang.PROGRAMS:
+        judge_source(run, src, check_source(src, d, stored=True), "corpus-stored", dict(name=name, stored=True))
+    for name, src in wholelang.MAYBE_PROGRAMS:
+        judge_source(run, src, check_source(src, d), "corpus-may-be-rejected", dict(name=name))
     for src in repo_test_sources():
         judge_source(run, src, check_source(src, d), "repo-tests")
     d.close()
@@ -165,7 +177,7 @@ def replay(obj):
     implrun.load()
     d = common.Driver()
     x = obj["input"]
-    res = check_source(x["source"], d, tags=(x["optimize"],))
+    res = check_source(x["source"], d, tags=(x["optimize"],), stored=bool(x.get("stored")))
     d.close()
     r = res[0]
     if r[1] == "reject": return True, "program is rejected now: " + r[2]
